@@ -31,7 +31,7 @@ theorem jar_forward (raw : Bytes) (hl : 30 ≤ raw.length) (hpk : hasPrefix raw 
     parent's type, and no node outside the zip subtree uses the zip walk -/
 theorem tree_facts :
     (Gen.builtin.children.filter (fun c => c.info.name == "zip")).map (fun c => c.children.map (·.info.name)) =
-      [["xlsx", "docx", "pptx", "epub", "apk", "jar", "odt", "ods", "odp", "odg", "odf", "odc", "sxc"]] ∧
+      [["xlsx", "docx", "pptx", "epub", "odt", "ods", "odp", "odg", "odf", "odc", "sxc", "apk", "jar"]] ∧
     (Gen.builtin.children.filter (fun c => c.info.name == "zip")).map (·.info.mime) = [C19Base.mimeZip] ∧
     (Gen.builtin.children.filter (fun c => !(c.info.name == "zip"))).all (fun c =>
       (Tree.flatten c).all (fun i => match i.det with
